@@ -17,7 +17,7 @@ constructed from the table / list before the operation sees it:
           | pl T | mi T (M = M + T, M = M - T) | tr (M = M.Transpose()) | ms x | dv x (M = M * x, M = M / x)
           | z r c (M = Matrix(r, c)) | df (M = Matrix())
   vector: rs n | as n x | st i x | cp | eq | se | pa L | ma L | sa | ss | pl L | mi L | ms x (v = v * x) | sm x (v = x * v) | dv x
-          | z n (v = Vector(n)) | df (v = Vector())
+          | z n (v = Vector(n)) | df (v = Vector()) | nz (v.Normalize()) | nd (v = v.Normalized())
 The operation is called on the very object the history ran on (not on a copy of it).
 The predicates evaluate every clause against the value a FRESH object would have (reference semantics of the steps: mat_history /
 vec_history below, independent of the Coq model), so an object whose past matters to an operation is a failing input.
@@ -59,7 +59,28 @@ LEVEL_TEXT = ("Theorems (Coq/MathComp, every shape and every entry, over an arbi
               "invariant so the theorems about const members apply at every point of a life, += / -= leave the same object as "
               "= A + B / = A - B). The block constructor is driven on grids whose blocks differ in character (ordinary, tiny / huge as a whole, a single non-zero entry, all +0.0 / -0.0; sizes along a ladder that includes the points where squares of entries leave the double range) and on objects with a call history / live objects as blocks (theorems C04_block_constructor, C04_block_single: every entry of every block is copied, whatever its value). That an answer of a const member depends on nothing but the current (rows, columns, components) "
               "is how the model is built (the classes have no other data member), not a theorem about the C++: it is what the "
-              "sessions test, each answer being judged against the definition on the value a fresh object would hold.")
+              "sessions test, each answer being judged against the definition on the value a fresh object would hold. "
+              "Unbounded statements about whole sessions (coq/C04_Proofs_Hist.v; [life_run] = the fold of the calls of a session, the function "
+              "the driver advances the live objects with): C04_session_composition (a session splits at every point), C04_session_invariant "
+              "(all live objects satisfy the class invariant after every prefix of a session of any length, none appears or disappears), "
+              "C04_session_frame (an object no call addresses keeps its value), C04_session_compound (v += b / v -= b may be written "
+              "v = v + b / v = v - b anywhere in a session without changing the final state; for matrices in sessions where the matrix has a "
+              "row whenever += / -= is called) - induction over the list of calls. Further laws for every conformable shape "
+              "(coq/C04_Proofs_Alg.v): exact for every number type, so for doubles: C04_transpose_linear (transpose of sum / difference / "
+              "scalar multiple / quotient, trace of the transpose), C04_symmetric_is_transpose_fixed, C04_commutative_product_laws "
+              "(u.v = v.u, v*A = transpose(A)*v, A*v = v*transpose(A), transpose(outer(u,v)) = outer(v,u), transpose(A)*A symmetric; "
+              "only x*y = y*x), C04_sum_commutative (only x+y = y+x); over a commutative ring (they reorder sums, so for doubles they are "
+              "NOT exact and only the ring statement is a theorem; S4 evaluates products to rounding): C04_product_associative, "
+              "C04_product_distributive (both sides, and (s*A)*B = s*(A*B)), C04_trace_norm_laws (Trace(A*B) = Trace(B*A), "
+              "Norm(transpose(A)) = Norm(A)), C04_dot_cross_laws (dot bilinear, u x v = -(v x u)). Vector::Normalized() / Normalize() "
+              "(anchored Vector code, new in the model: coq/C04_State.v v_normalized / v_normalize, run against the library as "
+              "operations, history steps and session steps): C04_normalized (entrywise quotient by Norm(), always defined, the two "
+              "spellings leave the same value, invariant kept) for every number type; C04_normalized_unit over a real closed field "
+              "(dot with itself and Norm() exactly 1 when an entry is non-zero) - for doubles 'unit to rounding' is only tested (S4). "
+              "The new exact laws v*A = transpose(A)*v, A*v = v*transpose(A), transpose(A+-B) = transpose(A)+-transpose(B) are also "
+              "evaluated bit for bit on the implementation (operations law_vecmat_tr, law_trsum). Not theorems: anything about rounding "
+              "errors of sums (S4 only, a-priori slack); the clauses for shapes with zero rows (outside the quantifier; the theorems that "
+              "rebuild a result through Matrix(vector<vector<double>>) assume a row); Angle() and Spherical_Coordinates are not part of C04.")
 LEVEL_NOTE = ("Coq 8.16.1 + MathComp 1.15; theorems are axiom-free; hand-written model tied by differential correspondence (extraction with "
               "ExtrOcamlBasic only). Theorems are about exact arithmetic in a commutative ring / field (the exact values of the doubles); "
               "the laws proved from commutativity / unit laws alone hold for IEEE doubles as numbers (==) for finite entries. "
@@ -90,7 +111,7 @@ class Skip(Exception):
 
 def fdiv(a, s):
     """IEEE a / s"""
-    if s != 0: return a / s
+    if s != 0: return a / s          # Python raises only for a zero divisor
     if a == 0 or math.isnan(a): return math.nan
     return math.copysign(math.inf, a) * math.copysign(1, s)
 
@@ -175,6 +196,18 @@ def mat_history(s, A):
     return M
 
 
+def ref_norm(v):
+    """Norm() evaluated as the definition reads: one accumulator of squares in index order, then sqrt (IEEE, no exceptions)"""
+    acc = 0.0
+    for a in v: acc = acc + a * a
+    return math.sqrt(acc) if acc >= 0 else math.nan
+
+
+def ref_normalized(v):
+    N = ref_norm(v)
+    return [fdiv(a, N) for a in v]
+
+
 def vec_step(s, st, v, operand):
     if st == "rs": n = s.int(); v = [v[i] if i < len(v) else 0.0 for i in range(n)]
     elif st == "as": n = s.int(); e = s.num(); v = [e] * n
@@ -194,6 +227,7 @@ def vec_step(s, st, v, operand):
     elif st == "dv": x = s.num(); v = [fdiv(a, x) for a in v]
     elif st == "z": v = [0.0] * s.int()
     elif st == "df": v = [0.0] * 3
+    elif st in ("nz", "nd"): v = ref_normalized(v)
     else: raise Skip
     return v
 
@@ -213,7 +247,7 @@ OBS_SIG = {"m_plus": "MM", "m_minus": "MM", "m_op_plus": "MM", "m_op_minus": "MM
            "law_trtr": "M", "law_mulid": "M", "m_show": "M", "sub_matrix": "Mii", "return_row": "Mi", "return_column": "Mi",
            "m_at": "Mii", "m_atc": "Mii",
            "v_add": "VV", "v_sub": "VV", "v_dot": "VV", "v_op_mul": "VV", "v_cross": "VV", "law_cross": "VV", "law_dotouter": "VV",
-           "outer": "VV", "v_eq": "VV", "v_norm": "V", "v_show": "V", "v_scale": "Vs", "v_div": "Vs", "s_mul_v": "sV",
+           "outer": "VV", "v_eq": "VV", "v_norm": "V", "v_normalized": "V", "law_trsum": "MM", "law_vecmat_tr": "VMV", "v_show": "V", "v_scale": "Vs", "v_div": "Vs", "s_mul_v": "sV",
            "v_at": "Vi", "v_atc": "Vi"}
 
 
@@ -555,7 +589,14 @@ def hist_vec(rng, n, kind="mixed", final=None):
         elif r < 0.78: out.append(f"{rng.choice(['pa', 'ma', 'pl', 'mi'])} {flist(rvec(rng, N, kind))}")
         elif r < 0.83: out.append(rng.choice(["sa", "ss"]))
         elif r < 0.93: out.append(f"{rng.choice(['ms', 'sm', 'dv'])} {hx(entry(rng, 'mixed') or 2.0)}")
-        elif r < 0.97: p = rng.randint(1, 5); out.append(f"z {p}"); N = p
+        elif r < 0.96: p = rng.randint(1, 5); out.append(f"z {p}"); N = p
+        elif r < 0.985:
+            # Normalize() / Normalized() where the object holds a vector with a finite non-zero norm and a normal quotient
+            # (a zero vector becomes all-NaN: judged in the fresh cases `v_normalized` / `v_normalize`, not carried into other operations)
+            cur = hist_value(f"{flist(v)} {len(out)}" + "".join(" " + o_ for o_ in out), True)
+            nz_ = [abs(a) for a in cur if a != 0]
+            if nz_ and all(math.isfinite(a) for a in cur) and 1e-140 <= min(nz_) and max(nz_) <= 1e140: out.append(rng.choice(["nz", "nd"]))
+            else: out.append("cp")
         else: out.append("df"); N = 3
     if N == 0: p = final or rng.randint(1, 4); out.append(f"rs {p}"); N = p
     if final is not None and N != final: out.append(f"rs {final}"); N = final
@@ -693,7 +734,11 @@ class Session:
             j = rng.randrange(len(s.vs))
             if rng.random() < 0.5: st = f"af @{j}"; s.vs[k] = s.vs[j]
             else: p = rng.randint(1, 6); st = f"af {flist(rvec(rng, p, s.kind))}"; s.vs[k] = p
-        elif r < 0.98: p = rng.randint(1, 5); st = f"z {p}"; s.vs[k] = p
+        elif r < 0.965: p = rng.randint(1, 5); st = f"z {p}"; s.vs[k] = p
+        elif r < 0.985:
+            # Normalize() / Normalized() right after the object was given a value with a finite non-zero norm
+            p = rng.randint(1, 6); w = [x if x != 0 and abs(x) < 1e6 else 1.0 for x in rvec(rng, p, "int")]
+            s.steps.append(f"v {k} af {flist(w)}"); s.vs[k] = p; st = rng.choice(["nz", "nd"])
         else: st = "df"; s.vs[k] = 3
         s.steps.append(f"v {k} {st}")
     # -- questions about matrix k that leave it alone; `probe` = (name, u, v, spelling): indices are the fractions u, v of the
@@ -735,7 +780,7 @@ class Session:
     def ask_v(s, k, probe):
         name, u, v, sp = probe; N = s.vs[k]; me = f"@{k}"
         pick = lambda l: l[sp % len(l)]
-        if name in ("v_show", "v_norm"): st = f"{name} {me}"
+        if name in ("v_show", "v_norm"): st = f"{name if name == 'v_show' or sp & 8 else 'v_normalized'} {me}"
         elif name in ("v_atc", "v_at"): st = f"{name} {me} {int(u * N)}"
         elif name in ("dot", "vsum", "v_eq"):
             f = pick(["v_dot", "v_op_mul", "law_dotouter"]) if name == "dot" else pick(["v_add", "v_sub"]) if name == "vsum" else "v_eq"
@@ -910,6 +955,11 @@ def generate(rng, tier):
         A = rmat(rng, m, n, K())
         add(f"law_matvec {mtab(A)} {flist(rvec(rng, n, K()))}", "law", "mat-vec")
         add(f"law_vecmat {flist(rvec(rng, m, K()))} {mtab(A)}", "law", "vec-mat")
+        add(f"law_vecmat_tr {flist(rvec(rng, m, K()))} {mtab(A)} {flist(rvec(rng, n, K()))}", "law", "vec-mat-transpose")
+        kk = K(); add(f"law_trsum {mtab(rmat(rng, m, n, kk))} {mtab(rmat(rng, m, n, kk))}", "law", "transpose-sum")
+        if rng.random() < 0.3:
+            add(f"law_trsum {mtab(rmat(rng, m, n, 'int'))} {mtab(rmat(rng, n, m, 'int') if m != n else rmat(rng, m, n + 1, 'int'))}", "law", "transpose-sum", "nonconformable")
+            add(f"law_vecmat_tr {flist(rvec(rng, n if m != n else m + 1, 'int'))} {mtab(A)} {flist(rvec(rng, n, 'int'))}", "law", "vec-mat-transpose", "nonconformable")
         add(f"{rng.choice(['m_prod_v', 'm_op_mul_v'])} {mtab(A)} {flist(rvec(rng, n, K()))}", "mat-vec")
         add(f"v_mul_m {flist(rvec(rng, m, K()))} {mtab(A)}", "vec-mat")
         bad = rng.choice([n - 1, n + 1, m if m != n else n + 2]); bad = max(bad, 1) if bad != n else n + 1
@@ -972,6 +1022,10 @@ def generate(rng, tier):
         if op == "s_mul_v": add(f"s_mul_v {hx(s)} {flist(u)}", "vector", "scalar")
         elif op == "v_norm": add(f"v_norm {flist(u)}", "vector", "norm")
         else: add(f"{op} {flist(u)} {hx(s)}", "vector", "scalar")
+        if rng.random() < 0.4:
+            w = rvec(rng, n, KX() if rng.random() < 0.3 else k)
+            if rng.random() < 0.1: w = [0.0] * n
+            add(f"{rng.choice(['v_normalized', 'v_normalize'])} {flist(w)}", "vector", "normalize")
     for n in range(1, 7):
         for p in range(1, 7):
             k = K(); u, v = rvec(rng, n, k), rvec(rng, p, k)
@@ -1189,7 +1243,7 @@ def generate(rng, tier):
         op = rng.choice(VSUM_OPS + ["v_dot", "v_op_mul", "law_dotouter", "outer", "v_at", "v_norm", "v_scale", "v_div", "s_mul_v", "cross"])
         sc = hx(entry(rng, "mixed") or 2.0)
         if op == "v_at": add(f"hist v_at {tu} {rng.choice([rng.randrange(N), N - 1, N, N + 1])}", "history", "vector", "v_at")
-        elif op == "v_norm": add(f"hist v_norm {tu}", "history", "vector", "norm")
+        elif op == "v_norm": add(f"hist {rng.choice(['v_norm', 'v_normalized', 'v_normalize'])} {tu}", "history", "vector", "norm")
         elif op in ("v_scale", "v_div"): add(f"hist {op} {tu} {sc}", "history", "vector", "scalar")
         elif op == "s_mul_v": add(f"hist s_mul_v {sc} {tu}", "history", "vector", "scalar")
         elif op == "cross":
@@ -1252,7 +1306,11 @@ def operands(line):
             for _ in range(r.int()):
                 for _ in range(r.int()): shp.append(shape(r.table()))
             return shp, True
-        if op in ("identity", "mat_diag", "mat_fill", "v_scale", "v_div", "s_mul_v", "v_norm", "v_eq", "mat_ctor", "v_at", "v_show"): return [], True
+        if op in ("identity", "mat_diag", "mat_fill", "v_scale", "v_div", "s_mul_v", "v_norm", "v_normalized", "v_normalize", "v_eq", "mat_ctor", "v_at", "v_show"): return [], True
+        if op == "law_vecmat_tr":
+            v = r.list(); A = r.table(); w = r.list(); return [shape(A)], shape(A) == (len(v), len(w))
+        if op == "law_trsum":
+            A, B = r.table(), r.table(); return [shape(A), shape(B)], shape(A) == shape(B)
         return [shape(r.table())], True
     except Exception:
         return [], True
@@ -1370,6 +1428,37 @@ def _predicates(c, io):
         if ex: bad("defined", "conformable product terminated the process"); return out
         g = o.vec(); m = o.mat()
         if (m[0], m[1]) != (1, len(A[0])) or len(g) != len(A[0]) or not all(feq(x, y) for x, y in zip(g, m[2][0])): bad("row-matrix", "v*M differs from (row matrix of v)*M")
+    elif op == "law_vecmat_tr":
+        v = r.list(); A = r.table(); w = r.list()
+        if guard(len(v) != len(A) or len(w) != len(A[0]), f"vector of size {len(v)} * ({len(A)}x{len(A[0])}) * vector of size {len(w)}"): return out
+        g1 = o.vec(); g2 = o.vec(); g3 = o.vec(); g4 = o.vec()
+        if len(g1) != len(g2) or not all(feq(x, y) for x, y in zip(g1, g2)): bad("vecmat-transpose", "v*M differs from transpose(M)*v")
+        if len(g3) != len(g4) or not all(feq(x, y) for x, y in zip(g3, g4)): bad("matvec-transpose", "M*v differs from v*transpose(M)")
+    elif op == "law_trsum":
+        A, B = r.table(), r.table()
+        if guard(shape(A) != shape(B), f"({shape(A)[0]}x{shape(A)[1]}) +/- ({shape(B)[0]}x{shape(B)[1]})"): return out
+        p1 = o.mat(); p2 = o.mat(); q1 = o.mat(); q2 = o.mat()
+        E = T([[a + b for a, b in zip(ra, rb)] for ra, rb in zip(A, B)])
+        if (p1[0], p1[1]) != (len(A[0]), len(A)) or not meq(p1[2], E): bad("transpose-sum", "transpose(A+B) is not the transposed entrywise sum")
+        if (p1[0], p1[1]) != (p2[0], p2[1]) or not meq(p1[2], p2[2]): bad("transpose-sum", "transpose(A+B) != transpose(A)+transpose(B)")
+        if (q1[0], q1[1]) != (q2[0], q2[1]) or not meq(q1[2], q2[2]): bad("transpose-difference", "transpose(A-B) != transpose(A)-transpose(B)")
+    elif op in ("v_normalized", "v_normalize"):
+        u = r.list()
+        if ex: bad("defined", "terminated the process"); return out
+        g = o.vec()
+        if len(g) != len(u): bad("shape", f"normalised vector has size {len(g)}, expected {len(u)}"); return out
+        # definition: every entry divided by Norm(); Norm() is judged to rounding (close_norm), the division is exact IEEE
+        N0 = ref_norm(u); cands = [N0]
+        if math.isfinite(N0) and N0 > 0:
+            x = y = N0
+            for _ in range(3):
+                x = math.nextafter(x, math.inf); y = math.nextafter(y, 0.0); cands += [x, y]
+        if not any(close_norm(N, u) and all(feq(x, fdiv(a, N)) for x, a in zip(g, u)) for N in cands):
+            bad("definition", f"entries {g[:4]} are not u_i / Norm(u) (expected {ref_normalized(u)[:4]})")
+        nz = [abs(a) for a in u if a != 0]
+        if nz and all(math.isfinite(a) for a in u) and min(nz) >= 1e-140 and max(nz) <= 1e140 and all(math.isfinite(x) for x in g):
+            S = exact_sum([(x, x) for x in g])
+            if abs(S - 1) > Fraction(SLACK): bad("unit", f"the normalised vector has squared norm {float(S)!r}, not 1 within rounding")
     elif op == "law_dotouter":
         u, v = r.list(), r.list()
         if ex: bad("defined", "terminated the process"); return out
